@@ -207,6 +207,57 @@ theorem first_call_in_block_charges_a (a : AccId) (body rest : Prog) (σ : St) :
   obtain ⟨tail, h⟩ := inside_block_charges_a a [.call none] (by simp [Quiet]) body rest σ
   exact ⟨tail, by simpa [prependOps, expectIn] using h⟩
 
+/-- programs whose TOP LEVEL does not rewrite the default: quiet operations, `try` blocks of such programs, and
+complete nested `with` blocks with ARBITRARY bodies (which may set/pop/raise as they like) -/
+def TopQuiet : Prog → Bool
+  | .nil => true
+  | .raise => true
+  | .op o rest => Quiet o && TopQuiet rest
+  | .block _ _ rest => TopQuiet rest
+  | .catch body rest => TopQuiet body && TopQuiet rest
+
+theorem top_stable_spec (a : AccId) (p : Prog) : ∀ s : Sp, TopQuiet p = true → s.top = some a →
+    (runS p s).1.top = some a := by
+  induction p with
+  | nil => intro s _ h; exact h
+  | raise => intro s _ h; exact h
+  | op o rest ih =>
+    intro s hq h
+    simp only [TopQuiet, Bool.and_eq_true] at hq
+    simp only [runS]
+    apply ih _ hq.2
+    cases o with
+    | setDefault b => simp [Quiet] at hq
+    | popDefault => simp [Quiet] at hq
+    | call e => cases e <;> simp [stepS, resolveTop, h]
+    | load e => cases e <;> simp [stepS, resolveTop, h]
+    | peek => simpa [stepS] using h
+  | block b body rest ihb ihr =>
+    intro s hq h
+    simp only [TopQuiet] at hq
+    have hpop := popS_runS_push body s b
+    simp only [runS]
+    split
+    · rw [hpop]; exact h
+    · apply ihr _ hq
+      rw [hpop]; exact h
+  | «catch» body rest ihb ihr =>
+    intro s hq h
+    simp only [TopQuiet, Bool.and_eq_true] at hq
+    simp only [runS]
+    exact ihr _ hq.2 (ihb s hq.1 h)
+
+/-- **inside a block the default stays the block's accountant across nested blocks**: in a well-bracketed program,
+after any stretch of code whose top level does not call set_default / pop_default — including complete nested `with`
+blocks whose bodies do anything at all and leave normally or by a caught exception — the default is still `a`;
+so the next call without an accountant charges `a` (`explicit_wins`, `first_call_in_block_charges_a`) -/
+theorem default_stable_through_nested_blocks (a : AccId) (p : Prog) (σ : St) (s : Sp) (opened : List AccId)
+    (hwf : WF p opened) (hrel : Rel σ s opened) (hq : TopQuiet p = true) (hd : σ.default = some a) :
+    (runI p σ).1.default = some a := by
+  have h := (scope_refines_stack p σ s opened hwf hrel).2.1
+  rw [← h]
+  exact top_stable_spec a p s hq (hrel.1.trans hd)
+
 /-! ### why distinctness is a hypothesis: the re-entrant counter-example -/
 
 /-- `with a: with a: pass` starting from default `d`: the inner `__exit__` deletes `a.old_default`, so the outer
